@@ -551,18 +551,64 @@ theorem gov_handlers_need_authority_and_flag {s s' : State} {au : Addr} {d : Den
     obtain ⟨_, hau, m, hm, _⟩ := h
     exact ⟨by simpa using hau, m, govMarker_ok hm⟩
 
-/-- Observation on `accountControlsAllSupply` (marker.go:868): on an active marker whose recorded
-supply is 0, an account with no access right and a zero balance "controls all supply" and may
-grant itself any right, e.g. `mint`. -/
+/-- `MsgAddAccess` / `MsgDeleteAccess` on a finalized or active marker succeed only for the manager
+(finalized only), a holder of `ACCESS_ADMIN`, or an account that holds the whole, positive bank
+supply of the denom (`accountControlsAllSupply` after the fix a784a9d34). -/
+theorem access_change_needs_manager_admin_or_whole_supply {s s' : State} {c : Addr} {d : Denom}
+    (h : (∃ a ps, exec s (.addaccess c d a ps) = .ok s') ∨ (∃ a, exec s (.delaccess c d a) = .ok s'))
+    {m : Marker} (hm : s.find d = some m) (hst : m.status = .finalized ∨ m.status = .active) :
+    (c = m.manager ∧ m.status = .finalized) ∨ m.hasAccess c .admin = true ∨
+      (0 < s.bank.supply d ∧ s.bank.bal c d = s.bank.supply d) := by
+  have key : accessChangeAllowed s c m = .ok () →
+      ((c = m.manager ∧ m.status = .finalized) ∨ m.hasAccess c .admin = true ∨
+        (0 < s.bank.supply d ∧ s.bank.bal c d = s.bank.supply d)) := by
+    intro hacc
+    have hd := find_denom hm
+    unfold accessChangeAllowed at hacc
+    split at hacc
+    · simp only [check_ok, controlsAllSupply, Bool.or_eq_true, Bool.and_eq_true, decide_eq_true_eq] at hacc
+      rcases hacc with (h1 | h1) | h1
+      · exact Or.inl h1
+      · exact Or.inr (Or.inl h1)
+      · rw [hd] at h1; exact Or.inr (Or.inr ⟨h1.1, h1.2.symm⟩)
+    · simp only [check_ok, controlsAllSupply, Bool.or_eq_true, Bool.and_eq_true, decide_eq_true_eq] at hacc
+      rcases hacc with (h1 | h1) | h1
+      · exact Or.inl h1
+      · exact Or.inr (Or.inl h1)
+      · rw [hd] at h1; exact Or.inr (Or.inr ⟨h1.1, h1.2.symm⟩)
+    · rename_i hp; rcases hst with h1 | h1 <;> (rw [h1] at hp; cases hp)
+    · rename_i h1 h2 h3
+      rcases hst with hx | hx
+      · exact absurd hx h1
+      · exact absurd hx h2
+  rcases h with ⟨a, ps, h⟩ | ⟨a, h⟩
+  · simp only [exec, addAccess, bind_ok, pure_ok] at h
+    obtain ⟨m0, hm0, u, hacc, _⟩ := h
+    have := getMarker_ok hm0
+    rw [hm] at this; cases this
+    exact key hacc
+  · simp only [exec, removeAccess, bind_ok, pure_ok] at h
+    obtain ⟨m0, hm0, u, hacc, _⟩ := h
+    have := getMarker_ok hm0
+    rw [hm] at this; cases this
+    exact key hacc
+
+/-- an active floating-supply marker created with amount 0 (its record stays 0 forever) -/
 def zeroSupplyState : State :=
   run {} [.addfa {
     sender := "A", denom := "mka", amt := 0, status := .proposed,
     restricted := false, fixed := false, gov := false, forced := false, manager := "A",
     access := [("A", [.mint, .admin])] }]
 
-theorem zero_supply_marker_lets_anyone_grant_access :
+/-- Before the fix a784a9d34 `accountControlsAllSupply` compared the caller's balance with the
+*recorded* supply (`controlsAllSupplyPreFix`): on `zeroSupplyState` an account `E` with no access
+right and a zero balance passed the check (and could then grant itself any right); the repaired
+rule rejects it, and the same `MsgAddAccess` is now refused. -/
+theorem zero_supply_marker_let_anyone_grant_access_before_fix :
+    (zeroSupplyState.find "mka").map (fun m => (controlsAllSupplyPreFix zeroSupplyState "E" m,
+      controlsAllSupply zeroSupplyState "E" m)) = some (true, false) ∧
     ((step zeroSupplyState (.addaccess "E" "mka" "E" [.mint, .burn, .withdraw, .admin])).find "mka").map
-      (fun m => m.hasAccess "E" .mint) = some true := by
+      (fun m => m.hasAccess "E" .mint) = some false := by
   decide
 
 end PvProofs.C05
